@@ -88,13 +88,12 @@ PROPS = {
         kani=[], native=[N('verif_merge::c07_sorter_equals_sort_and_merge', '34 runs, 10 with spills (more in thorough)')], witness=[],
         unproved=['Sorter not under contract'], explanation='bounded stand-in only for now'),
     'C08': dict(
-        verus_required=False,
         level='other',
-        level_text='Bounded stand-in: 55 MiB (90 thorough) of small-entry inserts (<= budget/4) through a counting ChunkCreator for 7 (threshold, realloc, max_nb_chunks, injected create failure) settings incl. non-16-aligned budgets and max_nb_chunks 1: bytes inserted since the last create() <= 2x budget (1x without realloc), live chunks <= max+2, every spill goes through the creator, no chunk leaks.',
-        level_note='Sorter arithmetic not under contract yet; bounded',
-        technique='bounded instrumented stand-in on the real Sorter',
+        level_text='Proved (Verus, unbounded in the number of inserts; induction = the representation invariant required and ensured by Sorter::insert): with entries of at most budget/4 (16-byte bound included) every insert that returns Ok keeps bytes-in-use <= capacity, capacity < 2 x dump_threshold when reallocation is allowed (non-linear doubling lemma) and == the 16-rounded threshold otherwise, at most max(max_nb_chunks-1, 1) chunks after the call (so at most max+2 alive inside it), and the buffer only shrinks through a chunk obtained from the ChunkCreator; SorterBuilder clamps the budget to >= 10 MiB and max_nb_chunks to >= 1. This is relative to the ASSUMED abstract contracts of Entries (fits is exact, insert grows by minimal doubling) and of write_chunk / merge_chunks (chunk counts); the Entries arithmetic is checked by bounded Kani harnesses on the real unsafe code (C17), write_chunk/merge_chunks by the bounded stand-in: 55 MiB (90 thorough) of small-entry inserts (<= budget/4) through a counting ChunkCreator for 7 (threshold, realloc, max_nb_chunks, injected create failure) settings incl. non-16-aligned budgets and max_nb_chunks 1: bytes inserted since the last create() <= 2x budget (1x without realloc), live chunks <= max+2, every spill goes through the creator, no chunk leaks.',
+        level_note='assumed: Entries model (Kani-checked, bounded), write_chunk/merge_chunks chunk-count contracts, physical byte-counter bound; process heap high-water mark is not a contract notion',
+        technique='Verus representation invariant on Sorter::insert over an assumed Entries model + bounded instrumented stand-in',
         kani=[], native=[N('verif_merge::c08_spill_bounds', '7 settings x 55 MiB')], witness=[],
-        unproved=['Sorter::insert spill arithmetic not under contract'], explanation='bounded stand-in only for now'),
+        unproved=['Entries model and write_chunk/merge_chunks contracts are assumed (Kani / stand-in)'], explanation='bounded stand-in only for now'),
     'C09': dict(
         level='other',
         level_text='Format clauses discharged by Verus at function level, written from the statement (literal magic numbers, big-endian block lengths/offset tables, little-endian trailer): frame layout, offset table one per interval with first 0 and u32 BE count, stored block = u64 BE length + compressed bytes, 22-byte trailer. Index structure (last key -> child offset at every level) and interop are bounded: every scenario file is decoded by an independent decoder (walks the tree from the trailer, checks every clause, back-to-back blocks), read by the frozen grenad 0.4.7 reader, and 0.4.7-written files are read by the current reader; uncompressed files must be byte-identical to 0.4.7 output.',
